@@ -341,6 +341,35 @@ def rule_translation(prog, fixture=False):
                 chosen = (f, loop, frags)
                 break
         if chosen is None:
+            # no loop of a known form: a per-character helper `string f(char)` reached from the translator (the loop may be
+            # std::accumulate / std::transform / a recursion this rule does not model; what each character becomes is
+            # still what the helper returns)
+            seen, todo = set(), [(fn, 0)]
+            while todo and chosen is None:
+                f, d = todo.pop(0)
+                if f.uid in seen:
+                    continue
+                seen.add(f.uid)
+                if f is not fn and len(f.params) == 1 and f.params[0].get("w") == 8 and \
+                        "string" in (f.raw.get("ret") or ""):
+                    try:
+                        folder = StrFolder(prog, f)
+                        sg = f.params[0].get("sg")
+                        frags = {}
+                        for w in range(1, 256):
+                            frags[w] = as_text(folder.run_function(f, [w - 256 if (sg and w >= 128) else w]))
+                        if any(frags.values()):
+                            chosen = (f, f.body, frags)
+                    except Unfoldable as e:
+                        why = "%s: the per-character helper could not be folded (%s)" % (f.qn, e)
+                if d < 3:
+                    for n in f.walk():
+                        if n.get("k") in ("CallExpr", "CXXMemberCallExpr", "CXXOperatorCallExpr"):
+                            for g in prog.call_targets(f, n):
+                                todo.append((g, d + 1))
+                    for lam in [x for x in prog.functions.values() if x.parent_key == f.key]:
+                        todo.append((lam, d + 1))
+        if chosen is None:
             r.undecided.append(why)
             continue
         lf, sw, frags = chosen
